@@ -21,6 +21,9 @@ Fixpoint ptok_eqb (a b : ptok) : bool :=
   | PObj t k l, PObj t' k' l' => String.eqb t t' && list_eqb String.eqb k k' && all2 l l'
   | PTerm z, PTerm z' => Z.eqb z z'
   | PIter t, PIter t' => String.eqb t t'
+  | PJob t r n w ds k l, PJob t' r' n' w' ds' k' l' =>
+      String.eqb t t' && Bool.eqb r r' && String.eqb n n' && Z.eqb w w' && list_eqb jv_eqb ds ds' &&
+      list_eqb String.eqb k k' && all2 l l'
   | _, _ => false
   end.
 
@@ -44,6 +47,9 @@ Fixpoint rows_match (fuel : nat) (a : tdb) (ia : nat) (b : tdb) (ib : nat) : boo
           | VMap k x, VMap k' y => list_eqb String.eqb k k' && all2 (fun i j => rows_match f a i b j) x y
           | VStatus x, VStatus y => Z.eqb x y
           | VNull, VNull => true
+          | VJob n w ds k x, VJob n' w' ds' k' y =>
+              String.eqb n n' && Z.eqb w w' && list_eqb jv_eqb ds ds' && list_eqb String.eqb k k' &&
+              all2 (fun i j => rows_match f a i b j) x y
           | _, _ => false
           end
       | _, _ => false
@@ -112,7 +118,10 @@ Definition skind_eqb (a b : skind) : bool :=
   match a, b with
   | KScatter, KScatter => true
   | KGather x, KGather y => Z.eqb x y
-  | KComb x, KComb y => pcomb_eqb x y
+  | KComb l x, KComb l' y => Bool.eqb l l' && pcomb_eqb x y
+  | KPlain x, KPlain y => String.eqb x y
+  | KJobIn x, KJobIn y => String.eqb x y
+  | KExecute x, KExecute y => smap_eqb x y
   | _, _ => false
   end.
 
@@ -134,7 +143,10 @@ Definition dparams_eqb (a b : dparams) : bool :=
   match a, b with
   | DScatter x, DScatter y => Nat.eqb x y
   | DGather d x, DGather d' y => Z.eqb d d' && Nat.eqb x y
-  | DCombP x, DCombP y => dcomb_eqb x y
+  | DCombP l x, DCombP l' y => Bool.eqb l l' && dcomb_eqb x y
+  | DPlain x, DPlain y => String.eqb x y
+  | DJobIn c x, DJobIn c' y => String.eqb c c' && Nat.eqb x y
+  | DExecute x m, DExecute y m' => Nat.eqb x y && smap_eqb m m'
   | _, _ => false
   end.
 
@@ -174,7 +186,48 @@ Definition check_wcase (c : wcase) : bool :=
       end
   end.
 
+(* ------------------------------------------------------------------ configurations (Persist/CfgModel.v)
+   CCfg orig db ids loaded: the binding [orig] was saved by the real BindingConfig.save into empty deployment /
+   target / filter tables, which afterwards are [db]; it returned [ids]; the real BindingConfig.load produced
+   [loaded]. *)
+From SF Require Export Persist.CfgModel.
+
+Definition ostr_eqb (a b : option string) : bool := opt_eqb String.eqb a b.
+Definition pdeploy_eqb (a b : pdeploy) : bool :=
+  String.eqb (dp_name a) (dp_name b) && String.eqb (dp_type a) (dp_type b) && jv_eqb (dp_config a) (dp_config b) &&
+  Bool.eqb (dp_external a) (dp_external b) && Bool.eqb (dp_lazy a) (dp_lazy b) &&
+  String.eqb (fst (fst (dp_policy a))) (fst (fst (dp_policy b))) &&
+  String.eqb (snd (fst (dp_policy a))) (snd (fst (dp_policy b))) && jv_eqb (snd (dp_policy a)) (snd (dp_policy b)) &&
+  ostr_eqb (dp_workdir a) (dp_workdir b) &&
+  opt_eqb (fun x y => String.eqb (fst x) (fst y) && ostr_eqb (snd x) (snd y)) (dp_wraps a) (dp_wraps b).
+Definition ptarget_eqb (a b : ptarget) : bool :=
+  match a, b with
+  | PTarget d l s w, PTarget d' l' s' w' => pdeploy_eqb d d' && Z.eqb l l' && ostr_eqb s s' && String.eqb w w'
+  | PLocal w, PLocal w' => String.eqb w w'
+  | _, _ => false
+  end.
+Definition pfilter_eqb (a b : pfilter) : bool :=
+  String.eqb (f_name a) (f_name b) && String.eqb (f_type a) (f_type b) && jv_eqb (f_config a) (f_config b).
+Definition pbinding_eqb (a b : pbinding) : bool :=
+  list_eqb ptarget_eqb (b_targets a) (b_targets b) && list_eqb pfilter_eqb (b_filters a) (b_filters b).
+Definition tgrow_eqb (a b : tgrow) : bool :=
+  Bool.eqb (tg_local a) (tg_local b) && Nat.eqb (tg_dep a) (tg_dep b) && Z.eqb (tg_locations a) (tg_locations b) &&
+  ostr_eqb (tg_service a) (tg_service b) && String.eqb (tg_workdir a) (tg_workdir b).
+Definition cdb_eqb (a b : cdb) : bool :=
+  list_eqb pdeploy_eqb (c_dep a) (c_dep b) && list_eqb tgrow_eqb (c_tgt a) (c_tgt b) && list_eqb pfilter_eqb (c_flt a) (c_flt b).
+
+Inductive fcase :=
+| CCfg (orig : pbinding) (db : cdb) (tids fids : list nat) (loaded : option pbinding).
+
+Definition check_fcase (c : fcase) : bool :=
+  match c with
+  | CCfg orig db tids fids loaded =>
+      opt_eqb pbinding_eqb (load_binding db (tids, fids)) loaded &&
+      (let '(ids, d) := save_binding orig (mkcdb [] [] []) in
+       list_eqb Nat.eqb (fst ids) tids && list_eqb Nat.eqb (snd ids) fids && cdb_eqb d db)
+  end.
+
 (* one case type for the harness *)
-Inductive ccase := XTok (c : tcase) | XWf (c : wcase).
+Inductive ccase := XTok (c : tcase) | XWf (c : wcase) | XCfg (c : fcase).
 Definition check_case (c : ccase) : bool :=
-  match c with XTok c => check_tcase c | XWf c => check_wcase c end.
+  match c with XTok c => check_tcase c | XWf c => check_wcase c | XCfg c => check_fcase c end.
